@@ -1,6 +1,12 @@
 """C17 - any command line is either accepted as documented or rejected cleanly."""
 import json
 import os
+import re
+import shlex
+import shutil
+import subprocess
+import time
+from concurrent.futures import ThreadPoolExecutor
 
 import vcheck
 
@@ -9,10 +15,80 @@ TESTS = {"totality": "TestVerif_C17_totality", "pairs": "TestVerif_C17_pairs", "
          "bind-names": "TestVerif_C17_bind_names", "bind-arguments": "TestVerif_C17_bind_args"}
 
 
+def cli_vectors(thorough):
+    src = open(os.path.join(vcheck.REPO, "src", "options.go")).read()
+    a = src.index("func parseOptions(")
+    body = src[a:src.index("\nfunc applyPreset(", a)]
+    names = sorted(set(re.findall(r'"(--[a-z0-9-]+|-[a-zA-Z0-9]|\+[a-zA-Z0-9])"', body)) - {"--man"})
+    values = ["", "0", "-1", "abc", "50%", "\u00e9", "99999999999999999999", "a:b:c", "up,", "ctrl-a:execute("]
+    if thorough:
+        values += ["1", "~5", "a,b", ":", "fg:1", "{1}", "'", " ", "full:", "1,2,3,4,5", "x:bottom", "host:99999", "f13", "\u754c"]
+    vecs = [[n] for n in names] + [["--no-such-option"], ["-"], ["---"], ["--=x"]]
+    for n in names:
+        for v in values:
+            vecs.append([n, v])
+            if n.startswith("--"):
+                vecs.append([n + "=" + v])
+    return vecs
+
+
+def cli_one(L, fzf, cwd, vec, via_env):
+    """Run the real binary in filter mode (no terminal needed): whatever the vector, the process must end with
+    status 0/1 (accepted) or 2 (rejected: exactly one non-empty line on stderr, nothing on stdout), never a crash."""
+    args, env = [fzf, "-f", "x"] + vec, vcheck.goenv()
+    if via_env:
+        args, env = [fzf, "-f", "x"], vcheck.goenv({"FZF_DEFAULT_OPTS": " ".join(shlex.quote(w) for w in vec)})
+    detail = {"args": vec, "via": "FZF_DEFAULT_OPTS" if via_env else "argv"}
+    try:
+        p = subprocess.run(args, cwd=cwd, env=env, stdin=subprocess.DEVNULL, stdout=subprocess.PIPE, stderr=subprocess.PIPE, timeout=30)
+    except subprocess.TimeoutExpired:
+        L.violation("cli:hang", detail)
+        return
+    err, out = p.stderr.decode(errors="replace"), p.stdout.decode(errors="replace")
+    detail.update(status=p.returncode, stderr=err[-400:], stdout=out[-200:])
+    L.outcomes["exit %d" % p.returncode] = L.outcomes.get("exit %d" % p.returncode, 0) + 1
+    if p.returncode < 0 or "goroutine " in err or "panic:" in err or "fatal error" in err:
+        L.violation("cli:crash", detail)
+    elif p.returncode not in (0, 1, 2):
+        L.violation("cli:unexpected-exit-status", detail)
+    elif p.returncode == 2:
+        L.nontrivial += 1
+        if err.strip() == "":
+            L.violation("totality:empty-error-message", detail)
+        elif not err.endswith("\n") or err.count("\n") != 1:
+            L.violation("cli:error-message-not-one-line", detail)
+        elif out:
+            L.violation("cli:rejected-but-printed-results", detail)
+
+
+def cli_layer(c, replay=None):
+    fzf = c.build_fzf()
+    L = vcheck.Layer("cli", "the fzf binary in filter mode (-f x, stdin=/dev/null) on every option name alone and with a value menu, through argv and "
+                            "through $FZF_DEFAULT_OPTS: exit status 0/1 or 2 with exactly one non-empty line on stderr, no stack trace; non-trivial = rejected vectors")
+    t0 = time.time()
+    cwd = os.path.join(c.work, "cwd", "cli")
+    os.makedirs(cwd, exist_ok=True)
+    if replay:
+        d = json.load(open(replay))["detail"]
+        cli_one(L, fzf, cwd, d["args"], d.get("via") == "FZF_DEFAULT_OPTS")
+        L.evaluations = 1
+    else:
+        vecs = cli_vectors(c.thorough)
+        jobs = [(v, False) for v in vecs] + [(v, True) for v in vecs if "\n" not in "".join(v)]
+        with ThreadPoolExecutor(max_workers=vcheck.NCPU) as ex:
+            list(ex.map(lambda j: cli_one(L, fzf, cwd, j[0], j[1]), jobs))
+        L.evaluations = len(jobs)
+        L.samples = [{"args": vecs[len(vecs) // 3], "via": "argv"}]
+        L.params = {"vectors": len(jobs)}
+    shutil.rmtree(cwd, ignore_errors=True)
+    L.wall_s = time.time() - t0
+    c.add_layer(L)
+
+
 def run(c, replay):
     ov = c.harness_overlay("src", FILES)
     b = c.build_test("src", ov)
-    env = {"C17_OPTIONS_GO": os.path.join(vcheck.REPO, "src", "options.go")}
+    env = {"C17_OPTIONS_GO": os.path.join(vcheck.REPO, "src", "options.go"), "GOGC": "800", "GOMAXPROCS": "2"}
     c.bounds = dict(option_vocabulary="every option literal in parseOptions of the current src/options.go",
                     values="menu of ~135 values (valid ones of every option type, empty, leading -, 0, -1, huge, non-numeric, % forms, multi-byte, bind strings)",
                     spellings="separate word, =value / glued short form, repeated, via $FZF_DEFAULT_OPTS, via $FZF_DEFAULT_OPTS_FILE",
@@ -30,6 +106,9 @@ def run(c, replay):
     ]
     if replay:
         layer = json.load(open(replay)).get("layer", "totality")
+        if layer == "cli":
+            cli_layer(c, replay)
+            return
         c.run_layer(b, TESTS[layer], layer, replay=replay, deadline_s=120, env=env)
         return
     c.run_layer(b, TESTS["totality"], "totality", deadline_s=c.pick(30, 120), env=env,
@@ -43,3 +122,4 @@ def run(c, replay):
                 rule="bind strings from the grammar (names, pairs, triples x contexts x keys): whole keymap == listed (action, argument) pairs in order")
     c.run_layer(b, TESTS["bind-arguments"], "bind-arguments", deadline_s=c.pick(40, 400), env=env,
                 rule="argument-taking actions x delimiter forms x argument texts x contexts: argument preserved verbatim, neighbours intact")
+    cli_layer(c)
